@@ -146,18 +146,30 @@ theorem splitOnC_head (d : Char) (v : List Char) :
     · exact ⟨splitOnC d r, by simp [splitOnC, hc]⟩
     · exact ⟨t, by simp [splitOnC, hc, e]⟩
 
-/-- what the reader keeps of a string value: the part before its first `=`, trimmed -/
-def keptStr (v : List Char) : List Char := trimSp (v.takeWhile (fun c => c != '='))
+/-- what the reader kept of a string value BEFORE the repair: the part before its first `=`, trimmed -/
+def keptStrOld (v : List Char) : List Char := trimSp (v.takeWhile (fun c => c != '='))
 
-theorem keptStr_noEq (v : List Char) (h : '=' ∉ v) : keptStr v = trimSp v := by
-  unfold keptStr
-  have : v.takeWhile (fun c => c != '=') = v := by
-    have := List.takeWhile_append_of_pos (p := fun c => c != '=') (l₁ := v) (l₂ := [])
-      (fun c hc => by
-        have : c ≠ '=' := fun e => h (e ▸ hc)
-        simpa using this)
-    simpa using this
-  rw [this]
+/-- what the (repaired) reader keeps of a string value: all of it, trimmed -/
+def keptStr (v : List Char) : List Char := trimSp v
+
+theorem keptStr_noEq (v : List Char) (_h : '=' ∉ v) : keptStr v = trimSp v := rfl
+
+theorem takeWhile_ne_append (d : Char) (a v : List Char) (h : d ∉ a) :
+    (a ++ d :: v).takeWhile (fun c => c != d) = a := by
+  induction a with
+  | nil => simp
+  | cons c r ih =>
+    have hc : c ≠ d := fun e => h (e ▸ List.mem_cons_self)
+    have hr : d ∉ r := fun m => h (List.mem_cons_of_mem _ m)
+    simp [hc, ih hr]
+
+theorem afterFirst_append (d : Char) (a v : List Char) (h : d ∉ a) : afterFirst d (a ++ d :: v) = some v := by
+  induction a with
+  | nil => simp [afterFirst]
+  | cons c r ih =>
+    have hc : c ≠ d := fun e => h (e ▸ List.mem_cons_self)
+    have hr : d ∉ r := fun m => h (List.mem_cons_of_mem _ m)
+    simp [afterFirst, hc, ih hr]
 
 /-- a rendered `-key = value` line reaches `updateTraceHeaderParam` with the key and with what is
     kept of the value -/
@@ -167,10 +179,22 @@ theorem headerLine_renderKV (h : KernelFileHeader) (key : String) (v : List Char
     headerLine h (renderKV key v) = updateParam h key.toList (keptStr v) := by
   have e : renderKV key v = ('-' :: (key.toList ++ [' '])) ++ '=' :: (' ' :: v) := by
     simp [renderKV]
+  unfold headerLine
+  rw [e, takeWhile_ne_append '=' _ _ hk, afterFirst_append '=' _ _ hk]
+  simp only [hkt, trimSp_space_cons]
+  rfl
+
+/-- the same line under the reader before the repair: the value was cut at its first `=` -/
+theorem headerLineOld_renderKV (h : KernelFileHeader) (key : String) (v : List Char)
+    (hk : '=' ∉ '-' :: (key.toList ++ [' ']))
+    (hkt : (trimSp ('-' :: (key.toList ++ [' ']))).drop 1 = key.toList) :
+    headerLineOld h (renderKV key v) = updateParam h key.toList (keptStrOld v) := by
+  have e : renderKV key v = ('-' :: (key.toList ++ [' '])) ++ '=' :: (' ' :: v) := by
+    simp [renderKV]
   obtain ⟨t, et⟩ := splitOnC_head '=' (' ' :: v)
   have e2 : (' ' :: v).takeWhile (fun c => c != '=') = ' ' :: v.takeWhile (fun c => c != '=') := by
     rw [List.takeWhile_cons_of_pos (by decide)]
-  unfold headerLine
+  unfold headerLineOld
   rw [e, splitOnC_append '=' _ _ hk, et, e2]
   simp only [List.headD_cons, hkt]
   rw [show (('-' :: (key.toList ++ [' '])) :: (' ' :: v.takeWhile (fun c => c != '=')) :: t)[1]? =
@@ -392,8 +416,9 @@ theorem scanVU_showNat (n : Nat) (h : n < 18446744073709551616) : scanVU (showNa
 
 /-! ## 6. the header block -/
 
-/-- a string value the `-key = value` format can carry: no `=`, no white space at either end -/
-def StrOK (s : List Char) : Prop := '=' ∉ s ∧ trimSp s = s
+/-- a string value the `-key = value` format can carry: no white space at either end (it may contain `=` since the
+    reader splits at the first `=` only) -/
+def StrOK (s : List Char) : Prop := trimSp s = s
 
 /-- the numeric fields are in the ranges of their Go types (`int32`; the two base addresses are
     printed as `0x%016x`, so non-negative `int64`) -/
@@ -465,13 +490,12 @@ theorem line_plain (h0 h1 : KernelFileHeader) (key : String) (v : List Char) (hv
 
 theorem toNat_cast (a : Int) (h : 0 ≤ a) : ((a.toNat : Nat) : Int) = a := Int.toNat_of_nonneg h
 
-/-- what the reader keeps of a header: the three strings are cut at their first `=` and trimmed -/
+/-- what the reader keeps of a header: the three strings are trimmed -/
 def KernelFileHeader.kept (h : KernelFileHeader) : KernelFileHeader :=
   { h with kernelName := keptStr h.kernelName, nvbitVersion := keptStr h.nvbitVersion,
            accelsimTracerVersion := keptStr h.accelsimTracerVersion }
 
-theorem keptStr_ok (v : List Char) (h : StrOK v) : keptStr v = v := by
-  rw [keptStr_noEq v h.1, h.2]
+theorem keptStr_ok (v : List Char) (h : StrOK v) : keptStr v = v := h
 
 theorem KernelFileHeader.WF.kept {h : KernelFileHeader} (wf : h.WF) : h.kept = h := by
   unfold KernelFileHeader.kept
@@ -634,7 +658,8 @@ def Exec.Ranges : Exec → Prop
   | .kernel f => hasPrefix "kernel" f = true
   | .memcpy d a n => hasPrefix "Memcpy" d = true ∧ ',' ∉ d ∧ a < 18446744073709551616 ∧ n < 18446744073709551616
 
-/-- well-formed entry: in range, and the direction is one of the two the reader knows -/
+/-- well-formed entry: in range, and the direction is one of the two the configuration names (the hypothesis of
+    `klist_parse_render`, kept from before the repair; `klist_parse_render_full_holds` needs `Ranges` only) -/
 def Exec.WF : Exec → Prop
   | .kernel f => hasPrefix "kernel" f = true
   | .memcpy d a n => (d = h2d ∨ d = d2h) ∧ a < 18446744073709551616 ∧ n < 18446744073709551616
@@ -654,14 +679,14 @@ def Exec.kept : Exec → Exec
 theorem Exec.WF.kept {e : Exec} (h : e.WF) : e.kept = e := by
   cases e with
   | kernel f => rfl
-  | memcpy d a n => simp [Exec.kept, keptDir, h.1]
+  | memcpy d a n => rfl
 
 theorem buildExec_render (e : Exec) (h : e.Ranges) : buildExec (renderExec e) = .ok e.kept := by
   cases e with
   | kernel f =>
     have := kernel_not_memcpy f h
     have h' : hasPrefix "kernel" f = true := h
-    simp [buildExec, renderExec, this.1, h', Exec.kept]
+    simp [buildExec, buildExecWith, renderExec, this.1, h', Exec.kept]
   | memcpy d a n =>
     obtain ⟨hp, hc, ha, hn⟩ := h
     have hpos : ∀ c ∈ d, (c != ',') = true := by
@@ -675,7 +700,7 @@ theorem buildExec_render (e : Exec) (h : e.Ranges) : buildExec (renderExec e) = 
     have hdw : ∀ r, (d ++ ',' :: r).dropWhile (fun c => c != ',') = ',' :: r := by
       intro r
       rw [List.dropWhile_append_of_pos hpos, List.dropWhile_cons_of_neg (by simp)]
-    unfold buildExec renderExec
+    unfold buildExec buildExecWith renderExec
     simp only [hasPrefix_append "Memcpy" d _ hp, if_true, htw, hdw,
       scanVU_hex16 a _ ha (RestOK_comma 16 (by omega) _), scanVU_showNat n hn]
     rfl
